@@ -142,8 +142,10 @@ impl IndexEntry {
             kind: source.kind(),
             addrs: Vec::new(),
             target: source.symlink_target().map(|t| t.to_owned()),
-            mtime: mtime.as_second(),
-            mtime_nanos: mtime.subsec_nanosecond().try_into().unwrap(),
+            // Store the floor of the seconds and a non-negative fraction, so that
+            // times before the epoch with a fractional part are representable.
+            mtime: mtime.as_nanosecond().div_euclid(1_000_000_000) as i64,
+            mtime_nanos: mtime.as_nanosecond().rem_euclid(1_000_000_000) as u32,
             unix_mode: source.unix_mode(),
             owner: source.owner().to_owned(),
         }
